@@ -6,11 +6,41 @@ for k in ("RUSTFLAGS", "RUSTUP_TOOLCHAIN", "CARGO_TARGET_DIR"):
     KANI_ENV.pop(k, None)
 
 
-def sh(cmd, cwd, env=None, timeout=None, mem_gb=None, log=None):
-    """run through bash with an address-space cap; returns (rc, output)"""
-    pre = "ulimit -v %d; " % (mem_gb * 1024 * 1024) if mem_gb else ""
-    full = pre + "exec " + " ".join(shlex.quote(c) for c in cmd)
+KILLED = []  # (pid, rss_gb, cmdline tail) of solver processes killed by the memory watchdog
+
+
+def _watchdog(stop, needle, mem_gb):
+    """kill cbmc / goto-instrument processes of this run whose resident set exceeds mem_gb (no swap on this box)"""
+    while not stop.wait(2.0):
+        for pid in os.listdir("/proc"):
+            if not pid.isdigit():
+                continue
+            try:
+                cl = open("/proc/%s/cmdline" % pid, "rb").read().decode("utf-8", "replace")
+                if needle not in cl:
+                    continue
+                exe = cl.split("\0")[0]
+                if not (exe.endswith("cbmc") or exe.endswith("goto-instrument") or exe.endswith("kissat")):
+                    continue
+                rss = 0
+                for line in open("/proc/%s/status" % pid):
+                    if line.startswith("VmRSS:"):
+                        rss = int(line.split()[1]) / (1024.0 * 1024.0)
+                if rss > mem_gb:
+                    os.kill(int(pid), signal.SIGKILL)
+                    KILLED.append((int(pid), round(rss, 1), cl.replace("\0", " ")[-200:]))
+            except (OSError, ValueError):
+                continue
+
+
+def sh(cmd, cwd, env=None, timeout=None, mem_gb=None, log=None, needle=None):
+    """run a command; solver children matching `needle` are killed when their RSS exceeds mem_gb. returns (rc, output)"""
+    import threading
+    full = "exec " + " ".join(shlex.quote(c) for c in cmd)
     t0 = time.time()
+    stop = threading.Event()
+    if mem_gb and needle:
+        threading.Thread(target=_watchdog, args=(stop, needle, mem_gb), daemon=True).start()
     p = subprocess.Popen(["bash", "-c", full], cwd=cwd, env=env or KANI_ENV, stdout=subprocess.PIPE,
                          stderr=subprocess.STDOUT, start_new_session=True)
     try:
@@ -24,6 +54,7 @@ def sh(cmd, cwd, env=None, timeout=None, mem_gb=None, log=None):
         o, _ = p.communicate()
         out = o.decode("utf-8", "replace") + "\n[runner] TIMEOUT after %ss\n" % timeout
         rc = 124
+    stop.set()
     out = re.sub(r"\x1b\[[0-9;]*[A-Za-z]", "", out).replace("\r\n", "\n")
     if log:
         with open(log, "a") as fh:
@@ -48,7 +79,7 @@ def run_group(base, harnesses, features, jobs, harness_timeout, mem_gb, tag, unw
     log = os.path.join(base, "kani-%s.log" % tag)
     # total wall cap: generous multiple of the per-harness cap
     waves = (len(harnesses) + jobs - 1) // jobs
-    rc, out = sh(cmd, crate, timeout=harness_timeout * waves + 600, mem_gb=mem_gb, log=log)
+    rc, out = sh(cmd, crate, timeout=harness_timeout * waves + 600, mem_gb=mem_gb, log=log, needle=base)
     res = {}
     if re.search(r"^error(\[E\d+\])?:", out, re.M) and not os.path.exists(outjson):
         errs = re.findall(r"^error[^\n]*\n(?:[^\n]*\n){0,6}", out, re.M)
@@ -85,7 +116,7 @@ def playback(base, h, features, mem_gb, timeout):
            h["module"].replace("crate::", "", 1) + "::" + h["name"]]
     if features:
         cmd += ["--features", ",".join(features)]
-    rc, out = sh(cmd, crate, timeout=timeout, mem_gb=mem_gb, log=os.path.join(base, "playback-%s.log" % h["name"]))
+    rc, out = sh(cmd, crate, timeout=timeout, mem_gb=mem_gb, log=os.path.join(base, "playback-%s.log" % h["name"]), needle=base)
     tests = []
     for m in PLAY_RE.finditer(out):
         what = " ".join(l.strip("/ ").strip() for l in m.group(2).splitlines() if l.strip("/ ").strip())
